@@ -235,7 +235,13 @@ func applyTxn(b *blk, op Op) {
 			}
 			donor.PutNode(util.Key(h), n.CloneNode())
 		}
-		m.MergeDB(donor, b.prevRoot, nil)
+		// the dead-node list handed to MergeDB belongs to the caller: one node that exists nowhere (recording it
+		// dead is harmless), and afterwards the caller reuses its slice for a node that is very much alive
+		dead := []util.Node{util.NewLeafNode(util.Path(""), util.Path("ff"), util.Sequence(b.ver), val([]byte(fmt.Sprintf("nowhere-%d", b.ver))))}
+		m.MergeDB(donor, b.prevRoot, dead)
+		if live, err := b.prior.GetNode(b.prevRoot); err == nil {
+			dead[0] = live.CloneNode()
+		}
 	}
 }
 
